@@ -39,3 +39,17 @@ pub open spec fn pawn_target_ok(v: Pos, src: u32, t: u32) -> bool {
     src < 64 && t < 64 && bit_set(side(v, v.turn).pawns, src) && pawn_att(v.turn, src, t) && !own_at(v, t)
     && (bit_set(all_occ(side(v, (1 - v.turn) as u32)), t) || (v.ep != 0 && t == v.ep))
 }
+
+/// castling by the rules: the right is still there, the squares between king and rook are empty, the king is not in
+/// check and neither crosses nor lands on an attacked square
+pub open spec fn castle_moves_rule(v: Pos, s: u32, d: u32, p: u64) -> bool {
+    let me = side(v, v.turn);
+    let op = side(v, (1 - v.turn) as u32);
+    let oc = (1 - v.turn) as u32;
+    let occ = full_occ(v);
+    p == 0 && s == (if v.turn == 0 { E1 } else { E8 }) && d < 64
+    && ((d + 2 == s && me.qs && !bit_set(occ, (s - 1) as u32) && !bit_set(occ, (s - 2) as u32) && !bit_set(occ, (s - 3) as u32)
+            && !sq_attacked(op, oc, occ, s) && !sq_attacked(op, oc, occ, (s - 1) as u32) && !sq_attacked(op, oc, occ, (s - 2) as u32))
+        || (d == s + 2 && me.ks && !bit_set(occ, (s + 1) as u32) && !bit_set(occ, (s + 2) as u32)
+            && !sq_attacked(op, oc, occ, s) && !sq_attacked(op, oc, occ, (s + 1) as u32) && !sq_attacked(op, oc, occ, (s + 2) as u32)))
+}
